@@ -10,6 +10,7 @@ import (
 	"errors"
 	"fmt"
 	"net"
+	"sync"
 	"time"
 
 	"github.com/pion/logging"
@@ -39,6 +40,11 @@ type Server struct {
 	listenerConfigs    []ListenerConfig
 	allocationManagers []*allocation.Manager
 	inboundMTU         int
+
+	// Connections accepted from the listeners, closed by Close().
+	connsLock sync.Mutex
+	conns     map[net.Conn]struct{}
+	closed    bool
 }
 
 // NewServer creates the Pion TURN server.
@@ -76,6 +82,7 @@ func NewServer(config ServerConfig) (*Server, error) { //nolint:gocognit,cyclop
 		nonceHash:           nonceHash,
 		inboundMTU:          mtu,
 		eventHandler:        config.EventHandler,
+		conns:               map[net.Conn]struct{}{},
 	}
 
 	if server.channelBindTimeout == 0 {
@@ -149,6 +156,21 @@ func (s *Server) Close() error {
 		}
 	}
 
+	// Close the connections accepted from the listeners as well: their read loops
+	// would otherwise go on serving requests (and creating allocations) until the
+	// clients hang up.
+	s.connsLock.Lock()
+	s.closed = true
+	conns := make([]net.Conn, 0, len(s.conns))
+	for conn := range s.conns {
+		conns = append(conns, conn)
+	}
+	s.connsLock.Unlock()
+	for _, conn := range conns {
+		// The read loop of the connection closes it too and reports what goes wrong.
+		_ = conn.Close()
+	}
+
 	if len(errors) == 0 {
 		return nil
 	}
@@ -170,7 +192,15 @@ func (s *Server) readListener(l net.Listener, am *allocation.Manager) {
 			return
 		}
 
+		if !s.trackConn(conn) {
+			_ = conn.Close()
+
+			return
+		}
+
 		go func() {
+			defer s.untrackConn(conn)
+
 			var tlsConnectionState *tls.ConnectionState
 
 			// Extract tls connection state if possible
@@ -204,6 +234,27 @@ func (s *Server) readListener(l net.Listener, am *allocation.Manager) {
 			}
 		}()
 	}
+}
+
+// trackConn remembers an accepted connection so that Close can close it. It reports false
+// when the server has been closed already.
+func (s *Server) trackConn(conn net.Conn) bool {
+	s.connsLock.Lock()
+	defer s.connsLock.Unlock()
+
+	if s.closed {
+		return false
+	}
+	s.conns[conn] = struct{}{}
+
+	return true
+}
+
+func (s *Server) untrackConn(conn net.Conn) {
+	s.connsLock.Lock()
+	defer s.connsLock.Unlock()
+
+	delete(s.conns, conn)
 }
 
 type nilAddressGenerator struct{}
